@@ -741,7 +741,7 @@ def do_solve(m, span, spec, op, endo, check, exo, ctx, step):
         't': t_seen,
         'endo': endo,
         'endo_offset': list(m.endogenous),
-        'check': list(m.__dict__['check']) if (spec['kind'] == 'scripted' and isinstance(m.__dict__.get('check'), list)) else check,
+        'check': list(ctl.expected_check) if (spec['kind'] == 'scripted' and ctl.expected_check is not None) else check,
         'drift_name': ((op.get('plan') or {}).get('*') or {}).get('drift', {}).get('name'),
         'exo': exo,
         'snap': snap,
@@ -753,7 +753,7 @@ def do_solve(m, span, spec, op, endo, check, exo, ctx, step):
         'feasible': True,
         'np_err': ctx.np_err,
         # (the step is taken in the model's dtype only if every check variable has it: NumPy promotes a mixed list)
-        'dtype': spec.get('dtype') if all(m.__dict__['_' + nm_].dtype == m.__dict__['dtype'] for nm_ in m.__dict__.get('check', []) if ('_' + nm_) in m.__dict__) else None,
+        'dtype': spec.get('dtype') if all(m.__dict__['_' + nm_].dtype == m.__dict__['dtype'] for nm_ in (ctl.expected_check if ctl.expected_check is not None else check) if ('_' + nm_) in m.__dict__) else None,
         'shorter_than_script': shorter_than_script(spec),
     }
     if spec.get('dtype'):
@@ -816,6 +816,7 @@ def execute(schedule, ctx):
         return
     n = len(span)
     pool = {0: m}
+    checks = {}  # per object: the check list as the class declared it and this history has edited it since (harness-side)
     for step, op in enumerate(schedule['ops']):
         ctx.step = step
         who = op.get('obj', 0)
@@ -842,6 +843,7 @@ def execute(schedule, ctx):
                     m.add_variable(op['name'], op['v'], dtype=float)  # a variable of a dtype of its own (wider than the model's)
                     if op.get('check'):
                         m.__dict__['check'].append(op['name'])  # ... that the user adds to the convergence check
+                        checks[who] = list(checks.get(who, check)) + [op['name']]
                         ctx.probe('check-variable-of-another-dtype-than-the-models')
                 else:
                     m.add_variable(op['name'], op['v'])
@@ -864,16 +866,25 @@ def execute(schedule, ctx):
         if op['op'] == 'edit_check':
             lst = m.check
             if isinstance(lst, list):
+                want_ = list(checks.get(who, check))  # (the edit is decided on the harness's own account of the list)
                 if op['how'] == 'assign':
                     pool_ = spec['endo'] + spec['exo']
-                    m.check = [pool_[(op['k'] + j_) % len(pool_)] for j_ in range(1 + op['k'] % 2)]
+                    want_ = [pool_[(op['k'] + j_) % len(pool_)] for j_ in range(1 + op['k'] % 2)]
+                    m.check = list(want_)
                 else:
-                    cands = [x for x in spec['endo'] + spec['exo'] if x not in lst] if op['how'] == 'append' else list(lst)
+                    cands = [x for x in spec['endo'] + spec['exo'] if x not in want_] if op['how'] == 'append' else list(want_)
                     if cands:
                         nm_ = cands[op['k'] % len(cands)]
-                        lst.append(nm_) if op['how'] == 'append' else lst.remove(nm_)
+                        if op['how'] == 'append':
+                            lst.append(nm_)
+                            want_.append(nm_)
+                        else:
+                            if nm_ in lst:
+                                lst.remove(nm_)
+                            want_.remove(nm_)
+                checks[who] = want_
                 ctx.probe('history:instance-check-' + op['how'])
-            ctx.log(step, 'edit_check', list(m.check))
+            ctx.log(step, 'edit_check', list(checks.get(who, check)))
             ctx.outcome('edit_check', 'ok')
             continue
         if op['op'] == 'eval':
@@ -901,6 +912,7 @@ def execute(schedule, ctx):
             ctx.log(step, 'poke', op['name'], op['pos'], op['v'])
             ctx.outcome('poke', 'ok')
             continue
+        probes.get_ctl(m).expected_check = list(checks[who]) if who in checks else None
         do_solve(m, span, spec, op, endo, check, exo, ctx, step)
 
 
